@@ -112,7 +112,8 @@ class Scene(Geometry3D):
         """
         base = self.graph.base_frame
         edges = self.graph.transforms.edge_data
-        for child in self.graph.transforms.children[base]:
+        # a scene without any frame below the base has nothing to move
+        for child in self.graph.transforms.children.get(base, []):
             combined = np.dot(transform, self.graph[child][0])
             # only the matrix changes: keep what else is stored
             # on the edge (geometry name, node metadata)
